@@ -79,7 +79,8 @@ class Tally:
             self.dist[bucket] = self.dist.get(bucket, 0) + 1
 
     def fail(self, kind, scenario, expected, got, signature, what=""):
-        if len(self.failures) < 50:
+        # separate budgets: model/implementation disagreements must never crowd out spec failures
+        if sum(1 for f in self.failures if f["kind"] == kind) < (40 if kind == "spec" else 15):
             self.failures.append({"kind": kind, "scenario": scenario, "expected": expected, "got": got,
                                   "signature": signature, "what": what})
 
